@@ -21,7 +21,7 @@ K_DELAY, K_SIDE, K_FUT, K_ANY, K_ALL, K_SUB, K_NEST = range(7)
 
 
 def _script(sym, tier):
-    n = 3 if tier == "quick" else 4
+    n = 3
     steps = []
     for s in range(n):
         if tier == "quick" and s == n - 1:
@@ -29,7 +29,7 @@ def _script(sym, tier):
         else:
             k = sym.choice(f"kind{s}", 7)
         if k == K_DELAY:
-            steps.append((k, sym.choice(f"dsel{s}", 2 if tier == "quick" else 4)))
+            steps.append((k, sym.choice(f"dsel{s}", 2)))
         elif k == K_SIDE:
             steps.append((k, 2))
         elif k == K_FUT:
@@ -212,7 +212,7 @@ HARNESSES = [
       functions=["Event.invoke", "Event._start_process", "ProcessContinuation.invoke", "ProcessContinuation._normalize_yield",
                  "Event._run_completion_hooks", "SimFuture._park", "SimFuture.resolve", "SimFuture._resume",
                  "SimFuture._add_settle_callback", "any_of", "all_of"],
-      bounds=lambda tier: {"steps": "3 (last one of delay/future/all_of)" if tier == "quick" else 4, "step kinds": ["delay", "delay+side effect", "future", "any_of", "all_of", "yield from sub()", "all_of(any_of(a,b), b)"],
+      bounds=lambda tier: {"steps": "3 (last one of delay/future/all_of)" if tier == "quick" else "3 (all seven kinds in every position)", "step kinds": ["delay", "delay+side effect", "future", "any_of", "all_of", "yield from sub()", "all_of(any_of(a,b), b)"],
                            "futures": 2 if tier == "quick" else 3, "resolve instants": "symbolic ns [0,600]", "values": "symbolic [-3,3]",
                            "delays": [d for d, _ in DELAYS], "second resolve of future 0": "symbolic, at or after the first"},
       outside=["symbolic (non-table) float delays", "generators nested deeper than one yield from", "futures shared by two generators (documented as unsupported)",
